@@ -1,8 +1,11 @@
 """Fail-closed syntactic translator for C10 (conversion cache).
 
   malt/pyct/transpiler.py  PyToPy.__init__, PyToPy._cached_factory, PyToPy.transform_function
-  malt/pyct/cache.py       _TransformedFnCache.has / __getitem__, CodeObjectCache._get_key
-  malt/impl/api.py         PyToPy.get_caching_key
+  malt/pyct/cache.py       _TransformedFnCache.has / __getitem__, CodeObjectCache._get_key,
+                           UnboundInstanceCache._get_key (the key of the allowlist cache, as a chain of
+                           projections PFunc / PWrapped / PCode applied to the callable)
+  malt/impl/conversion.py  _ALLOWLIST_CACHE, is_in_allowlist_cache, cache_allowlisted (shape)
+  malt/impl/api.py         PyToPy.get_caching_key, the _call_unconverted exits of converted_call
       -> coq/Generated/C10_gen.v   (definitions only)
 
 What is extracted is the *instruction skeleton* of the cache-access code, as a
@@ -498,6 +501,127 @@ def _require_stateless(tree, fname, func_names):
             _fail(fname, d, '%s is decorated (%s): possible memoisation' % (name, ast.unparse(d)[:40]))
 
 
+def _key_chain(gk, fname):
+    """UnboundInstanceCache._get_key as the chain of projections applied, in
+    order, to the callable: PFunc (`__func__` of a bound method), PWrapped
+    (`getattr(e, '__wrapped__', e)`), PCode (`getattr(e, '__code__', e)` /
+    the hasattr form).  Fail closed on anything else."""
+    params = [a.arg for a in gk.args.args]
+    if len(params) != 2 or params[0] != 'self' or gk.args.vararg or gk.args.kwarg or gk.args.kwonlyargs \
+            or gk.args.defaults or gk.decorator_list:
+        _fail(fname, gk, '_get_key signature')
+    ent = params[1]
+
+    def is_ismethod(t):
+        return isinstance(t, ast.Call) and ast.unparse(t.func) in ('inspect.ismethod', 'tf_inspect.ismethod') \
+            and len(t.args) == 1 and _is_name(t.args[0], ent) and not t.keywords
+
+    def is_func(e):
+        return isinstance(e, ast.Attribute) and e.attr == '__func__' and _is_name(e.value, ent)
+
+    def proj(e, node):
+        if _is_name(e, ent):
+            return []
+        if isinstance(e, ast.Call) and _is_name(e.func, 'getattr') and len(e.args) == 3 and not e.keywords \
+                and _is_name(e.args[0], ent) and _is_name(e.args[2], ent) and isinstance(e.args[1], ast.Constant):
+            if e.args[1].value == '__wrapped__':
+                return ['PWrapped']
+            if e.args[1].value == '__code__':
+                return ['PCode']
+            if e.args[1].value == '__func__':
+                return ['PFunc']
+        _fail(fname, node, '_get_key: unrecognised key expression `%s`' % ast.unparse(e)[:60])
+
+    def has_attr_test(t, attr):
+        return isinstance(t, ast.Call) and _is_name(t.func, 'hasattr') and len(t.args) == 2 and _is_name(t.args[0], ent) \
+            and isinstance(t.args[1], ast.Constant) and t.args[1].value == attr
+    chain = []
+    body = _nodoc(gk.body)
+    for idx, st in enumerate(body):
+        last = idx == len(body) - 1
+        rest = body[idx + 1:]
+        if isinstance(st, ast.If) and is_ismethod(st.test) and not st.orelse and len(st.body) == 1:
+            b = st.body[0]
+            if isinstance(b, ast.Assign) and len(b.targets) == 1 and _is_name(b.targets[0], ent) and is_func(b.value):
+                chain.append('PFunc')
+                continue
+            if isinstance(b, ast.Return) and is_func(b.value):
+                # early return: only the same thing as the sequential form when nothing else is applied afterwards
+                if len(rest) == 1 and isinstance(rest[0], ast.Return) and _is_name(rest[0].value, ent):
+                    chain.append('PFunc')
+                    continue
+                _fail(fname, st, '_get_key: early return for bound methods followed by further projections')
+        if isinstance(st, ast.If) and len(st.body) == 1 and isinstance(st.body[0], ast.Return):
+            # `if hasattr(e, A): return e.A [else: return e]`
+            r = st.body[0].value
+            for attr, pj in (('__code__', 'PCode'), ('__wrapped__', 'PWrapped')):
+                if has_attr_test(st.test, attr) and isinstance(r, ast.Attribute) and r.attr == attr and _is_name(r.value, ent):
+                    tail = st.orelse if st.orelse else rest
+                    if len(tail) == 1 and isinstance(tail[0], ast.Return) and _is_name(tail[0].value, ent) \
+                            and (st.orelse == [] or last):
+                        chain.append(pj)
+                        return chain
+        if isinstance(st, ast.Assign) and len(st.targets) == 1 and _is_name(st.targets[0], ent):
+            chain.extend(proj(st.value, st))
+            continue
+        if isinstance(st, ast.Return) and last:
+            chain.extend(proj(st.value, st))
+            return chain
+        _fail(fname, st, '_get_key: unrecognised statement `%s`' % ast.unparse(st).split('\n')[0][:70])
+    _fail(fname, gk, '_get_key does not end in a return')
+
+
+def _allowlist_cache_shape(repo, ctree, atree):
+    """conversion._ALLOWLIST_CACHE is one UnboundInstanceCache, read by
+    is_in_allowlist_cache(entity, options) and written by
+    cache_allowlisted(entity, options) only, both keyed by the callable and the
+    options exactly as converted_call hands them over.  -> the key chain"""
+    uic = _find_class(ctree, 'UnboundInstanceCache', 'cache.py')
+    if [ast.unparse(b) for b in uic.bases] != ['_TransformedFnCache']:
+        _fail('cache.py', uic, 'UnboundInstanceCache base class')
+    for m in uic.body:
+        if isinstance(m, ast.FunctionDef) and m.name != '_get_key':
+            _fail('cache.py', m, 'UnboundInstanceCache overrides %s' % m.name)
+    chain = _key_chain(_find_method(uic, '_get_key', 'cache.py'), 'cache.py')
+    path = os.path.join(repo, 'malt', 'impl', 'conversion.py')
+    with open(path) as f:
+        vtree = ast.parse(f.read())
+    binds = [n for n in ast.walk(vtree) if isinstance(n, ast.Name) and n.id == '_ALLOWLIST_CACHE' and isinstance(n.ctx, ast.Store)]
+    top = [n for n in vtree.body if isinstance(n, ast.Assign) and len(n.targets) == 1 and _is_name(n.targets[0], '_ALLOWLIST_CACHE')]
+    if len(binds) != 1 or len(top) != 1 or ast.unparse(top[0].value) != 'cache.UnboundInstanceCache()':
+        _fail('conversion.py', top[0] if top else vtree, '_ALLOWLIST_CACHE is not bound once to cache.UnboundInstanceCache()')
+    fns = dict((n.name, n) for n in vtree.body if isinstance(n, ast.FunctionDef))
+    want = {'is_in_allowlist_cache': ['try:\n    return _ALLOWLIST_CACHE.has(entity, options)\nexcept TypeError:\n    return False'],
+            'cache_allowlisted': ['try:\n    _ALLOWLIST_CACHE[entity][options] = True\nexcept TypeError:\n    pass']}
+    for name, body in want.items():
+        if name not in fns:
+            raise Untranslatable('untranslatable: conversion.py: function %s not found' % name)
+        fn = fns[name]
+        if [a.arg for a in fn.args.args] != ['entity', 'options'] or fn.decorator_list \
+                or [ast.unparse(s) for s in _nodoc(fn.body)] != body:
+            _fail('conversion.py', fn, '%s shape' % name)
+    for n in ast.walk(vtree):
+        if isinstance(n, ast.Name) and n.id == '_ALLOWLIST_CACHE' and isinstance(n.ctx, ast.Load):
+            if not any(n is m for name in want for m in ast.walk(fns[name])):
+                _fail('conversion.py', n, '_ALLOWLIST_CACHE is used outside is_in_allowlist_cache / cache_allowlisted')
+    # api.py reads / writes it with exactly (f, options) of the request
+    afns = dict((n.name, n) for n in atree.body if isinstance(n, ast.FunctionDef))
+    for n in ast.walk(atree):
+        if isinstance(n, ast.Attribute) and n.attr == '_ALLOWLIST_CACHE':
+            _fail('api.py', n, 'api.py touches conversion._ALLOWLIST_CACHE directly')
+        if isinstance(n, ast.Call) and isinstance(n.func, ast.Attribute) and n.func.attr in ('is_in_allowlist_cache', 'cache_allowlisted'):
+            if [ast.unparse(a) for a in n.args] != ['f', 'options'] or n.keywords:
+                _fail('api.py', n, '%s is not called with (f, options)' % n.func.attr)
+    for name in ('converted_call', '_fall_back_unconverted', '_call_unconverted'):
+        fn = afns.get(name)
+        if fn is None:
+            continue
+        for n in ast.walk(fn):
+            if isinstance(n, ast.Name) and isinstance(n.ctx, ast.Store) and n.id == 'f':
+                _fail('api.py', n, '%s rebinds its parameter f (the allowlist cache would be asked about another object)' % name)
+    return chain
+
+
 def translate(repo):
     # ---- transpiler.py
     path = os.path.join(repo, 'malt', 'pyct', 'transpiler.py')
@@ -617,6 +741,7 @@ def translate(repo):
         _fail('api.py', ck, 'get_caching_key returns something else than ctx.options')
 
     exits = _allowlist_exits(atree)
+    key_chain = _allowlist_cache_shape(repo, ctree, atree)
     # purity of the two functions that produce cache sub-keys
     _require_pure(ck, 'api.py', {'converter'})
     path = os.path.join(repo, 'malt', 'core', 'converter.py')
@@ -651,6 +776,8 @@ def translate(repo):
            '(* inspect_utils.getimmediatesource, parser.parse_entity / dedent_block / parse use no module-level mutable',
            '   state (no memo below the conversion cache): what is transformed is the current source of the request *)',
            'Definition source_recovery_stateless : bool := true.',
+           '(* cache.UnboundInstanceCache._get_key (conversion._ALLOWLIST_CACHE): projections applied to the callable *)',
+           'Definition allowlist_key_chain : akey_chain := [%s].' % '; '.join(key_chain),
            '(* api.converted_call / _fall_back_unconverted: every _call_unconverted exit,',
            '   (guard depends on the calling context, writes the allowlist cache) *)',
            'Definition allowlist_exits : exits :=',
